@@ -1,5 +1,47 @@
 """C07 worker: run solver/composite stacks of the implementation, record what every
-layer received and returned, render the observations as Coq `case` terms."""
+layer received and returned, render the observations as Coq `case` terms.
+
+COVERAGE (clause of the property / entry point / option -> generator stream -> Coq case that decides it)
+
+ clause "over exactly the problem's variables (+ documented auxiliaries)", "each value in its variable's
+ domain", "each row's energy is the submitted problem's energy of that row (looked up BY LABEL)":
+     every stream -> CPost / CPostRaw on the sample set the OUTERMOST layer returned (after resolving it)
+ clause "each column carries the values of the variable it is labelled with":
+     every composite / mixin / sampler layer -> res_equiv (model table vs. seen table, columns re-indexed by label)
+ clause "exact solvers enumerate the whole space, each assignment once, lowest (feasible) row optimal":
+     kind bqm base exact, kind poly (ExactPolySolver), kind dqm, kind cqm -> CExact / CExactDqm / CExactCqm
+
+ entry points   sample / sample_ising (h as dict or list) / sample_qubo (self-loops)    kind bqm, kind mixin `entry`
+                sample_poly / sample_hising / sample_hubo (raw keys, constants)         kind poly `entry`
+                sample_dqm, sample_cqm (rtol / atol given or defaulted)                 kind dqm, kind cqm
+ samplers       ExactSolver, RandomSampler (num_reads given / signature default, seed, initial_states),
+                SimulatedAnnealingSampler (num_reads, num_sweeps, beta_range as tuple/list, documented
+                ValueErrors -> CSaCall), IdentitySampler (initial_states raw dict list / raw array of every
+                dtype / SampleSet, of the same or the other vartype, missing / foreign labels, values showing
+                no vartype; generator none / tile / random / unknown; num_reads None / 0 / truncating / tiling
+                with remainder -> CParse on the argument AS GIVEN), NullSampler (-> CNull)       kind bqm `base`
+                single-method samplers (sample_ising only / sample_qubo only), stacked up to 3 deep, integer
+                energy dtype (-> CMixin per level, CStack for the whole stack)                   kind mixin
+ composites     Truncate (n, sorted_by, aggregate), Tracking (copy), Structure (complete / partial)   kind bqm `layers`
+                HigherOrder (penalty_strength, keep_penalty_variables, discard_unsatisfied, defaults),
+                PolyScale (scalar, bias_range, poly_range, ignored_terms, zero bounds), PolyTruncate,
+                PolyFixedVariable (fixed_variables None / empty / partial / all)                   kind poly `layers`, `hoc`
+ FUTURE-BACKED sample sets (SampleSet.from_future with a real concurrent.futures.Future pending or done, a
+                future-like with / without .done, an explicit result_hook, decorators.nonblocking_sample_method):
+                under the Sampler.sample mixins - the deferred branch of SampleSet.change_vartype, nested up to
+                three deferred adjustments, non-zero offsets and conversion constants (kind mixin `fut`, `upper`);
+                under every BQM stack (kind bqm `async`: AsyncBase below Truncate / Tracking / Structure and the
+                sample_ising / sample_qubo mixins of the composites), under HigherOrderComposite (kind poly with
+                hoc, `async`) and under the polynomial composites (kind poly without hoc, `async`: AsyncPolyBase).
+                The recorders do not resolve a pending set: they hand it on inside a transparent future-backed
+                set and snapshot it when it is resolved (Proofs/DeferredFacts.v recorder_transparent).
+ labels         str / int / tuple / mixed unsortable pools, shuffled; h given as list (range labels)   rand_labels2, h_list
+ kind saargs    SimulatedAnnealingSampler's keyword handling on a tiny problem (beta_range forms, the eight documented
+                rejections drawn with probability 0.7) so that every rejection is met several times per quick run
+ NOT reached    real pending Futures below composites that read their child's answer (would block for ever);
+                SampleSet.change_vartype(inplace=False) (pinned statically only: Gen_Deferred copy branch);
+                num_sweeps=1 (corpus/C07/sa_single_sweep.json: ZeroDivisionError, reported); TypeError rejections.
+"""
 import itertools
 import warnings
 from fractions import Fraction
@@ -62,6 +104,18 @@ class Rec(dimod.Sampler):
         self.properties = {}
         self.calls = []
         self.attempts = []
+        self.pending_seen = []      # per call: was the child's sample set still pending when it came back
+
+    def _ret(self, method, inp, ss):
+        """a pending sample set is NOT resolved by the recorder: it is handed on inside a transparent
+        future-backed set and snapshotted when (if) somebody resolves it"""
+        if hasattr(ss, '_future'):
+            self.pending_seen.append(not ss.done())
+            out, _ = future_backed(ss, 'set', _Sink(lambda sn: self.calls.append((method, inp, sn))), [])
+            return out
+        self.pending_seen.append(False)
+        self.calls.append((method, inp, snap(ss)))
+        return ss
 
     def sample(self, bqm, **kw):
         inp = bqm.copy()
@@ -70,23 +124,60 @@ class Rec(dimod.Sampler):
         except Exception:
             pass
         self.attempts.append(("sample", inp))
-        ss = self.child.sample(bqm, **kw)
-        self.calls.append(("sample", inp, snap(ss)))
-        return ss
+        return self._ret("sample", inp, self.child.sample(bqm, **kw))
 
     def sample_ising(self, h, J, **kw):
         inp = (dict(h) if isinstance(h, dict) else dict(enumerate(h)), dict(J))
         self.attempts.append(("ising", inp))
-        ss = self.child.sample_ising(h, J, **kw)
-        self.calls.append(("ising", inp, snap(ss)))
-        return ss
+        return self._ret("ising", inp, self.child.sample_ising(h, J, **kw))
 
     def sample_qubo(self, Q, **kw):
         inp = dict(Q)
         self.attempts.append(("qubo", inp))
-        ss = self.child.sample_qubo(Q, **kw)
-        self.calls.append(("qubo", inp, snap(ss)))
-        return ss
+        return self._ret("qubo", inp, self.child.sample_qubo(Q, **kw))
+
+
+class _Sink:
+    def __init__(self, fn):
+        self.fn = fn
+
+    def __setitem__(self, k, v):
+        self.fn(v)
+
+
+class AsyncPolyBase(dimod.PolySampler):
+    """the wrapped polynomial solver's answer arrives on a future"""
+    parameters = None
+    properties = None
+
+    def __init__(self, child, mode):
+        self.child = child
+        self.mode = mode
+        self.parameters = dict(child.parameters or {})
+        self.properties = {}
+        self.pending = []
+
+    def sample_poly(self, poly, **kw):
+        out, _ = future_backed(self.child.sample_poly(poly, **kw), self.mode, {}, self.pending)
+        return out
+
+
+class AsyncBase(dimod.Sampler):
+    """the wrapped reference sampler's answer arrives on a future (mode: one of ASYNC_MODES)"""
+    parameters = None
+    properties = None
+
+    def __init__(self, child, mode):
+        self.child = child
+        self.mode = mode
+        self.parameters = dict(child.parameters or {})
+        self.properties = {}
+        self.pending = []
+
+    def sample(self, bqm, **kw):
+        ss = self.child.sample(bqm, **kw)
+        out, _ = future_backed(ss, self.mode, {}, self.pending)
+        return out
 
 
 def inp_parts(method, inp):
@@ -138,6 +229,9 @@ class PolyRec(dimod.PolySampler):
     def sample_poly(self, poly, **kw):
         inp = (poly_terms(poly), poly.vartype.name, list(poly.variables))
         ss = self.child.sample_poly(poly, **kw)
+        if hasattr(ss, '_future'):
+            out, _ = future_backed(ss, 'set', _Sink(lambda sn: self.calls.append((inp, sn))), [])
+            return out
         self.calls.append((inp, snap(ss)))
         return ss
 
@@ -151,39 +245,149 @@ def maybe_int(ss, want):
     return ss
 
 
-class IsingOnly(dimod.Sampler):
+class LazyFuture:
+    """a future whose result arrives when it is first asked for: done() is False until then"""
+
+    def __init__(self, value):
+        self._value, self._done = value, False
+
+    def done(self):
+        return self._done
+
+    def result(self):
+        self._done = True
+        return self._value()
+
+
+class BareFuture:
+    """a future-like object WITHOUT a done attribute (SampleSet.done() then says True)"""
+
+    def __init__(self, value):
+        self._value = value
+
+    def result(self):
+        return self._value()
+
+
+class SetFuture:
+    """transparent recorder around a sample set that may be pending: done() is the inner set's,
+    result() resolves it, lets the recorder look at it, and hands it on"""
+
+    def __init__(self, inner, value):
+        self._inner, self._value = inner, value
+
+    def done(self):
+        return self._inner.done()
+
+    def result(self):
+        return self._value()
+
+
+FUT_MODES = ('pending', 'done', 'lazy', 'bare', 'hook', 'nonblocking', 'nonblocking_done')
+# under composites that read their child's answer a real pending Future would block for ever
+ASYNC_MODES = ('done', 'lazy', 'lazy', 'bare', 'hook', 'nonblocking', 'nonblocking_done')
+
+
+def future_backed(ss, mode, rec, pending):
+    """a SampleSet built on a future that yields the (resolved or pending) sample set `ss`.
+    rec['child'] receives the snapshot of ss at the moment the future hands it over (before anything
+    can adjust it in place).  Real concurrent.futures.Future objects left pending are appended to
+    `pending` as (future, value) and must be completed by the caller.
+    Returns (sample set, model kind (has_done, is_done) of the future)."""
+    import concurrent.futures
+    from dimod.decorators import nonblocking_sample_method
+
+    state = []
+
+    def value():
+        if not state:           # a deep copy of the pending set (TrackingComposite(copy=True)) shares this closure
+            state.append(1)
+            ss.resolve()
+            rec["child"] = snap(ss)
+        return ss
+    if mode == 'set':
+        return dimod.SampleSet.from_future(SetFuture(ss, value)), None
+    if mode == 'lazy':
+        return dimod.SampleSet.from_future(LazyFuture(value)), (True, False)
+    if mode == 'bare':
+        return dimod.SampleSet.from_future(BareFuture(value)), (False, False)
+    if mode == 'hook':
+        # explicit result_hook that does not use the future's value
+        return dimod.SampleSet.from_future(LazyFuture(lambda: None), lambda fut: (fut.result(), value())[1]), (True, False)
+    f = concurrent.futures.Future()
+    if mode in ('done', 'nonblocking_done'):
+        f.set_result(None if mode == 'nonblocking_done' else value())
+    else:
+        pending.append((f, None if mode == 'nonblocking' else value))
+    if mode in ('nonblocking', 'nonblocking_done'):
+        def gen_method():
+            yield f
+            yield value()
+        return nonblocking_sample_method(gen_method)(), (True, mode == 'nonblocking_done')
+    return dimod.SampleSet.from_future(f), (True, mode == 'done')
+
+
+def finish(pending):
+    """complete the real futures that were left pending"""
+    for f, value in pending:
+        f.set_result(None if value is None else value())
+    del pending[:]
+
+
+class _OneMethod:
+    """shared part of IsingOnly / QuboOnly: answer the BQM the implemented method stands for.
+    child None: solved exactly here; otherwise handed to child.sample (a stack of single-method
+    samplers, each adding one change_vartype).  fut: None (plain sample set) or one of FUT_MODES"""
+
+    def _init(self, int_energies=False, child=None, fut=None, pending=None):
+        self.parameters = {}
+        self.properties = {}
+        self.calls = []
+        self.int_energies = int_energies
+        self.child = child
+        self.fut = fut
+        self.pending = pending if pending is not None else []
+        self.kind = None
+
+    def _answer(self, bqm, rec):
+        rec["bqm"] = bqm
+        self.calls.append(rec)
+        if self.child is None:
+            ss = maybe_int(dimod.ExactSolver().sample(bqm), self.int_energies)
+            if self.fut is None:
+                rec["child"] = snap(ss)
+                return ss
+            out, self.kind = future_backed(ss, self.fut, rec, self.pending)
+            return out
+        ss = self.child.sample(bqm)
+        if not hasattr(ss, '_future'):
+            rec["child"] = snap(ss)
+            return ss
+        out, _ = future_backed(ss, 'set', rec, self.pending)
+        return out
+
+
+class IsingOnly(_OneMethod, dimod.Sampler):
     """implements sample_ising only; everything else comes from the Sampler mixins"""
     parameters = None
     properties = None
 
-    def __init__(self, int_energies=False):
-        self.parameters = {}
-        self.properties = {}
-        self.calls = []
-        self.int_energies = int_energies
+    def __init__(self, **kw):
+        self._init(**kw)
 
     def sample_ising(self, h, J, **kw):
-        ss = dimod.ExactSolver().sample(dimod.BinaryQuadraticModel.from_ising(h, J))
-        ss = maybe_int(ss, self.int_energies)
-        self.calls.append((dict(h), dict(J), snap(ss)))
-        return ss
+        return self._answer(dimod.BinaryQuadraticModel.from_ising(h, J), {"h": dict(h), "J": dict(J)})
 
 
-class QuboOnly(dimod.Sampler):
+class QuboOnly(_OneMethod, dimod.Sampler):
     parameters = None
     properties = None
 
-    def __init__(self, int_energies=False):
-        self.parameters = {}
-        self.properties = {}
-        self.calls = []
-        self.int_energies = int_energies
+    def __init__(self, **kw):
+        self._init(**kw)
 
     def sample_qubo(self, Q, **kw):
-        ss = dimod.ExactSolver().sample(dimod.BinaryQuadraticModel.from_qubo(Q))
-        ss = maybe_int(ss, self.int_energies)
-        self.calls.append((dict(Q), snap(ss)))
-        return ss
+        return self._answer(dimod.BinaryQuadraticModel.from_qubo(Q), {"Q": dict(Q)})
 
 
 # ----------------------------------------------------------------------------
@@ -236,30 +440,51 @@ def gen_quad_problem(rng, entry, nmax=6, nmin=0):
     return {"vartype": vt, "vars": [enc_label(l) for l in labels], "off": off, "lin": lin, "quad": quad}
 
 
+def gen_sa_opts(rng, kw, p_bad=0.15):
+    kw["num_reads"] = rng.randint(1, 3)
+    kw["num_sweeps"] = rng.randint(2, 6)
+    kw["pyseed"] = rng.randint(0, 2 ** 31)
+    # rarely used options: an explicit beta_range (tuple or list), a single sweep, and the
+    # documented rejections (ValueError) of num_reads / beta_range / num_sweeps
+    if rng.random() < 0.4:
+        kw["beta_range"] = rng.choice([["1/2", "2"], ["1", "1"], ["1/4", "8"], ["2", "1/2"]])
+        kw["beta_form"] = rng.choice(['tuple', 'list'])
+    # num_sweeps=1 is NOT drawn: ising_simulated_annealing divides by (num_sweeps - 1.) and raises
+    # ZeroDivisionError (explicit beta_range / all-zero problem) - kept as corpus/C07/sa_single_sweep.json
+    if rng.random() < p_bad:
+        bad = rng.choice(['reads0', 'readsneg', 'sweeps0', 'sweepsneg', 'beta0', 'betaneg', 'beta3', 'beta1'])
+        kw["sa_bad"] = bad
+        if bad.startswith('reads'):
+            kw["num_reads"] = 0 if bad == 'reads0' else -2
+        elif bad.startswith('sweeps'):
+            kw["num_sweeps"] = 0 if bad == 'sweeps0' else -1
+        else:
+            kw["beta_range"] = {'beta0': ["0", "2"], 'betaneg': ["1", "-1/2"], 'beta3': ["1", "2", "4"], 'beta1': ["2"]}[bad]
+            kw["beta_form"] = rng.choice(['tuple', 'list'])
+
+
 def gen_bqm_base(rng, small=False):
     base = rng.choice(['exact', 'exact', 'exact', 'random', 'sa', 'identity', 'identity', 'identity', 'null'])
     kw = {"base": base}
     if base == 'random':
-        kw["num_reads"] = rng.randint(1, 5)
+        kw["num_reads"] = rng.randint(1, 5) if rng.random() < 0.85 else None     # None: the signature's default
         kw["seed"] = rng.randint(0, 2 ** 31)
         if rng.random() < 0.45:
             # RandomSampler forwards **kwargs to IdentitySampler: initial_states are accepted
             kw["ninit"] = rng.randint(1, 4)
-            kw["mismatch"] = rng.choice([None, None, None, 'drop', 'extra'])
+            kw["mismatch"] = rng.choice([None, None, None, None, 'drop', 'extra', 'badvals'])
             kw["init_form"] = rng.choice(['dicts', 'array'])
             kw["init_vt"] = rng.choice(['same', 'other'])
             kw["init_dtype"] = rng.choice(['int8', 'int16', 'int32', 'int64', 'float32', 'float64', 'bool', 'uint8', 'uint16', 'uint32'])
             kw["init_raw"] = rng.random() < 0.5
             kw["init_seed"] = rng.randint(0, 2 ** 31)
     elif base == 'sa':
-        kw["num_reads"] = rng.randint(1, 3)
-        kw["num_sweeps"] = rng.randint(2, 6)
-        kw["pyseed"] = rng.randint(0, 2 ** 31)
+        gen_sa_opts(rng, kw)
     elif base == 'identity':
         kw["num_reads"] = rng.choice([None, None, 1, 2, 3, 4, 5, 7, 0])
-        kw["mismatch"] = rng.choice([None, None, None, None, None, None, 'drop', 'extra'])
+        kw["mismatch"] = rng.choice([None, None, None, None, None, None, None, 'drop', 'extra', 'badvals'])
         kw["seed"] = rng.randint(0, 2 ** 31)
-        kw["isg"] = rng.choice(['random', 'tile', 'none'])
+        kw["isg"] = rng.choice(['random', 'tile', 'none'] * 8 + ['bogus'])      # unknown generator: ValueError
         kw["ninit"] = rng.randint(0, 5)
         kw["init_form"] = rng.choice(['dicts', 'array'])
         kw["init_vt"] = rng.choice(['same', 'other'])
@@ -270,6 +495,9 @@ def gen_bqm_base(rng, small=False):
             kw["num_reads"] = kw["ninit"] + rng.randint(1, 2 * kw["ninit"])      # tiling with a remainder
         elif kw["ninit"] >= 2 and rng.random() < 0.3:
             kw["num_reads"] = rng.randint(1, kw["ninit"] - 1)                     # truncation
+    if rng.random() < 0.3:
+        # the base sampler's answer arrives on a future (SampleSet.from_future / nonblocking_sample_method)
+        kw["async"] = rng.choice(ASYNC_MODES)
     return kw
 
 
@@ -425,7 +653,14 @@ def gen_poly_layers(rng, poly, base_is_hoc):
 
 
 def gen_case(rng, tier):
-    kind = rng.choice(['bqm', 'bqm', 'bqm', 'mixin', 'poly', 'poly', 'poly', 'dqm', 'cqm', 'cqm'])
+    kind = rng.choice(['bqm', 'bqm', 'bqm', 'mixin', 'mixin', 'poly', 'poly', 'poly', 'dqm', 'cqm', 'cqm', 'saargs'])
+    if kind == 'saargs':
+        # SimulatedAnnealingSampler's keyword handling on a tiny problem: beta_range forms, the documented rejections
+        entry = rng.choice(['sample', 'ising', 'qubo'])
+        c = {"kind": "bqm", "entry": entry, "prob": gen_quad_problem(rng, entry, nmax=2, nmin=1), "layers": [], "base": "sa"}
+        c["prob"].pop("h_list", None)
+        gen_sa_opts(rng, c, p_bad=0.7)
+        return c
     if kind == 'bqm':
         entry = rng.choice(['sample', 'sample', 'ising', 'qubo'])
         prob = gen_quad_problem(rng, entry)
@@ -446,7 +681,16 @@ def gen_case(rng, tier):
             mul = 4 if rng.random() < 0.5 else 1
             for t in prob["lin"] + prob["quad"]:
                 t[-1] = str(int(Fraction(t[-1])) * mul)
-        return {"kind": kind, "which": which, "entry": entry, "prob": prob, "int_child": int_child}
+        c = {"kind": kind, "which": which, "entry": entry, "prob": prob, "int_child": int_child}
+        # the implemented method answers with a sample set built on a future (SampleSet.from_future /
+        # nonblocking_sample_method): still pending when the mixin adjusts vartype and offset, already
+        # done, or an object without .done; optionally under further single-method samplers, so that
+        # several adjustments are deferred on top of each other
+        if rng.random() < 0.6:
+            c["fut"] = rng.choice(FUT_MODES)
+        if rng.random() < 0.35:
+            c["upper"] = [rng.choice(['isingonly', 'quboonly']) for _ in range(rng.choice([1, 1, 2]))]
+        return c
     if kind == 'poly':
         entry = rng.choice(['poly', 'poly', 'hising', 'hubo'])
         hoc = rng.random() < 0.55
@@ -459,12 +703,14 @@ def gen_case(rng, tier):
         else:
             poly = gen_poly(rng, entry=entry)
         c = {"kind": kind, "entry": entry, "poly": poly, "hoc": None}
+        if not hoc and rng.random() < 0.3:
+            c["async"] = rng.choice(ASYNC_MODES)      # ExactPolySolver's answer arrives on a future
         if hoc:
             c["hoc"] = {"penalty_strength": str(rng.choice([Fraction(1), Fraction(2), Fraction(1, 2), Fraction(4)])),
                         "keep": rng.random() < 0.5, "discard": rng.random() < 0.4,
                         "defaults": rng.random() < 0.15}
             b = gen_bqm_base(rng)
-            while b["base"] == 'identity':      # would need initial states over the auxiliary variables
+            while b["base"] == 'identity' or b.get("sa_bad"):      # would need initial states over the auxiliary variables
                 b = gen_bqm_base(rng)
             c.update(b)
         layers = gen_poly_layers(rng, poly, hoc)
@@ -646,6 +892,17 @@ def make_initial_states(c, variables, vt, kw):
         rows.append(row)
     if rows and order:
         raw = c.get("init_raw") or c["init_form"] == 'dicts'
+        if c.get("mismatch") == 'badvals':
+            # raw states whose values show no vartype: a value outside {-1, 0, 1}, or a 0 next to a -1
+            raw = True
+            i, j = r.randrange(len(rows)), r.randrange(len(order))
+            if len(rows) * len(order) >= 2 and r.random() < 0.5:
+                i2, j2 = i, j
+                while (i2, j2) == (i, j):
+                    i2, j2 = r.randrange(len(rows)), r.randrange(len(order))
+                rows[i][j], rows[i2][j2] = 0, -1
+            else:
+                rows[i][j] = r.choice([2, 3, -2])
         if c["init_form"] == 'dicts':
             # every dict in its own key order (as_samples must re-align by LABEL; rotations and longer
             # cycles are not their own inverse)
@@ -666,6 +923,8 @@ def make_initial_states(c, variables, vt, kw):
             dt = c.get("init_dtype")
             if dt not in dts:
                 dt = dts[c["init_seed"] % len(dts)]
+            if c.get("mismatch") == 'badvals' and dt in ('bool', 'uint8', 'uint16', 'uint32'):
+                dt = 'int8'
             init = (np.array(rows, dtype=np.dtype(dt)), order)
             kw["_init_dtype"] = dt
         if raw:
@@ -673,12 +932,14 @@ def make_initial_states(c, variables, vt, kw):
             flat = [x for row in rows for x in row]
             kw["initial_states"] = init
             kw["_init_vt"] = 'SPIN' if -1 in flat else 'BINARY' if 0 in flat else vt
+            kw["_init_decl"] = None         # raw samples-like: the model infers the vartype from the values
             kw["_init_ls"] = list(order)
             kw["_init_rows"] = rows
         else:
             ss = dimod.SampleSet.from_samples(init, vartype=ivt, energy=[0] * len(rows))
             kw["initial_states"] = ss
             kw["_init_vt"] = ivt
+            kw["_init_decl"] = ivt
             kw["_init_ls"] = list(ss.variables)
             kw["_init_rows"] = [[int(x) for x in row] for row in np.asarray(ss.record.sample).tolist()]
 
@@ -690,7 +951,9 @@ def make_bqm_base(c, variables, vt):
         s = dimod.ExactSolver()
     elif b == 'random':
         s = dimod.RandomSampler()
-        kw = dict(num_reads=c["num_reads"], seed=c["seed"])
+        kw = dict(seed=c["seed"])
+        if c["num_reads"] is not None:
+            kw["num_reads"] = c["num_reads"]
         if c.get("ninit"):
             make_initial_states(c, variables, vt, kw)
     elif b == 'sa':
@@ -698,6 +961,9 @@ def make_bqm_base(c, variables, vt):
         random.seed(c["pyseed"])
         s = dimod.SimulatedAnnealingSampler()
         kw = dict(num_reads=c["num_reads"], num_sweeps=c["num_sweeps"])
+        if c.get("beta_range") is not None:
+            br = [float(Fraction(x)) for x in c["beta_range"]]
+            kw["beta_range"] = tuple(br) if c.get("beta_form") == 'tuple' else br
     elif b == 'null':
         s = dimod.NullSampler()
     else:
@@ -706,6 +972,8 @@ def make_bqm_base(c, variables, vt):
         if c["num_reads"] is not None:
             kw["num_reads"] = c["num_reads"]
         make_initial_states(c, variables, vt, kw)
+    if c.get("async"):
+        s = AsyncBase(s, c["async"])
     return s, kw
 
 
@@ -724,6 +992,16 @@ def make_structure(l, variables):
     return nodes, edges
 
 
+def init_term(T, kw, decl, ls, rows):
+    """the initial_states argument as given: None, or (vartype a SampleSet declares / None for raw
+    states, labels, rows) - the MODEL infers the vartype of raw states and converts"""
+    if "initial_states" not in kw:
+        return "None"
+    d = "None" if decl is None else f"(Some {cbool(decl == 'SPIN')})"
+    return "(Some (%s, %s, %s))" % (d, clist([cnat(T.idx(v)) for v in ls]),
+                                    clist([clist([cq(F(x)) for x in r]) for r in rows]))
+
+
 def run_bqm(c):
     from dimod.exceptions import BinaryQuadraticModelStructureError
     entry = c["entry"]
@@ -734,12 +1012,13 @@ def run_bqm(c):
     for v in prob["vars"]:
         T.idx(v)
     feats = {"kind": "bqm", "entry": entry, "base": c["base"], "layers": "+".join(l["t"] for l in c["layers"]),
-             "empty_problem": len(variables) == 0}
+             "empty_problem": len(variables) == 0, "async": c.get("async")}
     base, kw = make_bqm_base(c, variables, vt)
     init_vt = kw.pop("_init_vt", None)
     init_ls = kw.pop("_init_ls", None)
     init_rows = kw.pop("_init_rows", None)
     init_dtype = kw.pop("_init_dtype", None)
+    init_decl = kw.pop("_init_decl", None)
     recs = []
     objs = []
     structs = {}
@@ -767,8 +1046,13 @@ def run_bqm(c):
         ss = getattr(top, {'sample': 'sample', 'ising': 'sample_ising', 'qubo': 'sample_qubo'}[entry])(*args, **kw)
     except BinaryQuadraticModelStructureError:
         raised = 'structure'
+    except ZeroDivisionError as e:
+        if c["base"] == 'sa' and c.get("num_sweeps") == 1:
+            return {"coq": None, "nontrivial": False, "features": dict(feats, sa_single_sweep_raises=True),
+                    "py_fail": "SimulatedAnnealingSampler raised ZeroDivisionError for the valid option num_sweeps=1: " + str(e)}
+        raise
     except ValueError as e:
-        if c["base"] not in ('identity', 'random'):
+        if c["base"] not in ('identity', 'random', 'sa'):
             raise
         raised = 'ValueError'
         if init_dtype == 'bool' and init_vt == vt and 'unsupported sample dtype' in str(e):
@@ -777,6 +1061,13 @@ def run_bqm(c):
             return {"coq": None, "py_fail": None, "nontrivial": False,
                     "features": dict(feats, raised=raised, bool_states_rejected=True)}
     feats["raised"] = raised
+    if ss is not None:
+        # a future-backed answer may have travelled up the stack unresolved: complete the futures and
+        # resolve it now (the recorders snapshot every layer's answer as it is handed over)
+        feats["top_pending"] = not ss.done()
+        if isinstance(base, AsyncBase):
+            finish(base.pending)
+        ss.resolve()
     terms = []
     py_fail = None
     # the submitted problem, as the user wrote it
@@ -824,7 +1115,11 @@ def run_bqm(c):
         _, _, _, bvars, _ = inp_parts(*recs[-1].attempts[-1])
         bvl = clist([cnat(T.idx(v)) for v in bvars])
         seen_t = "None" if base_seen is None else f"(Some {res_term(T, base_seen)})"
-        if c["base"] == 'identity':
+        if c["base"] == 'identity' and c["isg"] == 'bogus':
+            feats["bogus_generator"] = True
+            if raised != 'ValueError':
+                py_fail = "IdentitySampler accepted an unknown initial_states_generator"
+        elif c["base"] == 'identity':
             g = {'none': 'GNone', 'tile': 'GTile', 'random': 'GRandom'}[c["isg"]]
             if "initial_states" in kw:
                 ls, rows = init_ls, init_rows
@@ -834,9 +1129,8 @@ def run_bqm(c):
             else:
                 ls, rows, conv = list(bvars), [], 0
             nr = "None" if c["num_reads"] is None else f"(Some {cnat(c['num_reads'])})"
-            terms.append("(CIdentity %s %s (PQuad %s) %s %s %s %s %s)" % (
-                g, nr, pterm, bvl, clist([cnat(T.idx(v)) for v in ls]), cnat(conv),
-                clist([clist([cq(F(x)) for x in r]) for r in rows]), seen_t))
+            terms.append("(CParse %s %s (PQuad %s) %s %s %s %s)" % (
+                g, nr, pterm, cbool(spin), bvl, init_term(T, kw, init_decl, ls, rows), seen_t))
             feats["mismatch"] = c.get("mismatch") if "initial_states" in kw else None
         elif c["base"] == 'random':
             if "initial_states" in kw:
@@ -846,12 +1140,23 @@ def run_bqm(c):
                 conv = 0 if init_vt == vt else (1 if vt == 'BINARY' else 2)
             else:
                 ls, rows, conv = list(bvars), [], 0
-            terms.append("(CIdentity GRandom (Some %s) (PQuad %s) %s %s %s %s %s)" % (
-                cnat(c["num_reads"]), pterm, bvl, clist([cnat(T.idx(v)) for v in ls]), cnat(conv),
-                clist([clist([cq(F(x)) for x in r]) for r in rows]), seen_t))
+            nreads = c["num_reads"]
+            if nreads is None:
+                # not passed: the default of RandomSampler.sample's signature (read from the signature,
+                # the number itself is not part of the property)
+                import inspect
+                nreads = inspect.signature(dimod.RandomSampler.sample).parameters["num_reads"].default
+            terms.append("(CParse GRandom (Some %s) (PQuad %s) %s %s %s %s)" % (
+                cnat(nreads), pterm, cbool(spin), bvl, init_term(T, kw, init_decl, ls, rows), seen_t))
             feats["mismatch"] = c.get("mismatch") if "initial_states" in kw else None
             if base_seen is not None:
                 terms.append(f"(CFromRows (PQuad {pterm}) {bvl} {res_term(T, base_seen)})")
+        if c["base"] == 'sa':
+            brt = "None" if c.get("beta_range") is None else "(Some %s)" % clist([cq(Fraction(x)) for x in c["beta_range"]])
+            terms.append(f"(CSaCall {cz(c['num_reads'])} {brt} {cz(c['num_sweeps'])} {cbool(raised == 'ValueError')})")
+            feats["sa_rejected"] = raised == 'ValueError'
+        if c["base"] in ('identity', 'random'):
+            pass
         elif raised is None or base_seen is not None:
             if False:
                 pass
@@ -919,14 +1224,36 @@ def fold_selfloops(lin, quad):
 
 
 def run_mixin(c):
+    """stack of single-method samplers: c['upper'] (outermost first) over c['which'], the innermost
+    solving exactly and answering with a plain sample set or (c['fut']) one built on a future"""
     entry, prob = c["entry"], c["prob"]
     vt = prob["vartype"]
     args, variables = build_quad_args(prob, entry)
     T = LabelTable()
     for v in prob["vars"]:
         T.idx(v)
-    s = (IsingOnly if c["which"] == 'isingonly' else QuboOnly)(int_energies=bool(c.get("int_child")))
+    fut = c.get("fut")
+    pending = []
+    names = list(c.get("upper") or []) + [c["which"]]
+    s = None
+    stack = []
+    for i, w in enumerate(reversed(names)):
+        cls = IsingOnly if w == 'isingonly' else QuboOnly
+        if s is None:
+            s = cls(int_energies=bool(c.get("int_child")), fut=fut, pending=pending)
+        else:
+            s = cls(child=s, pending=pending)
+        stack.append(s)
+    stack.reverse()                  # stack[0] is the outermost sampler
     ss = getattr(s, {'sample': 'sample', 'ising': 'sample_ising', 'qubo': 'sample_qubo'}[entry])(*args)
+    py_fail = None
+    was_pending = not ss.done()
+    expect_pending = fut in ('pending', 'lazy', 'hook', 'nonblocking')
+    if was_pending != expect_pending:
+        py_fail = f"done() of the returned sample set is {not was_pending} for a child answering with future mode {fut!r}"
+    if expect_pending and any("child" in r for x in stack for r in x.calls):
+        py_fail = py_fail or "the sample method resolved the child's future (the mixins must not block)"
+    finish(pending)
     final = snap(ss)
     if entry == 'sample':
         bqm = args[0]
@@ -941,24 +1268,46 @@ def run_mixin(c):
         pterm = poly_obs_term(T, 0, [], raw)
         lin, quad = fold_selfloops([], raw)
         off = 0
-    sub = poly_obs_term(T, off, lin, quad)
-    call = s.calls[-1]
-    if c["which"] == 'isingonly':
-        sent = poly_obs_term(T, 0, list(call[0].items()), [(u, v, b) for (u, v), b in call[1].items()])
-        d = 'BinaryViaIsing' if vt == 'BINARY' else 'SameVartype'
-    else:
-        l2, q2 = fold_selfloops([], [(u, v, b) for (u, v), b in call[0].items()])
-        sent = poly_obs_term(T, 0, l2, q2)
-        d = 'SpinViaQubo' if vt == 'SPIN' else 'SameVartype'
-    child = call[-1]
     vs = clist([cnat(T.idx(v)) for v in variables])
-    py_fail = None
     if final["vartype"] != vt:
-        py_fail = f"sample set vartype {final['vartype']} != problem vartype {vt}"
-    terms = [f"(CPost (PQuad {pterm}) {vars_term(T, variables, vt)} {res_term(T, final)})",
-             f"(CMixin {d} {cnat(len(T))} {vs} {sub} {sent} {res_term(T, child)} {res_term(T, final)})"]
-    feats = {"kind": "mixin", "which": c["which"], "entry": entry, "dir": d,
-             "int_child_energies": bool(s.calls) and isinstance(s.calls[-1][-1]["energies_dtype_int"], bool) and s.calls[-1][-1]["energies_dtype_int"]}
+        py_fail = py_fail or f"sample set vartype {final['vartype']} != problem vartype {vt}"
+    terms = [f"(CPost (PQuad {pterm}) {vars_term(T, variables, vt)} {res_term(T, final)})"]
+    # level by level: the problem the level's .sample received, what its implemented method was sent,
+    # what that method's sample set held when it was resolved, what the level's .sample returned
+    sub = poly_obs_term(T, off, lin, quad)
+    sub_vt = vt
+    res = final
+    levels = []
+    dirs = []
+    for i, x in enumerate(stack):
+        if len(x.calls) != 1 or "child" not in x.calls[-1]:
+            py_fail = py_fail or f"level {i} of the stack was not called exactly once / never resolved"
+            break
+        call = x.calls[-1]
+        if names[i] == 'isingonly':
+            sent = poly_obs_term(T, 0, list(call["h"].items()), [(u, v, b) for (u, v), b in call["J"].items()])
+            d = 'BinaryViaIsing' if sub_vt == 'BINARY' else 'SameVartype'
+            next_vt = 'SPIN'
+        else:
+            l2, q2 = fold_selfloops([], [(u, v, b) for (u, v), b in call["Q"].items()])
+            sent = poly_obs_term(T, 0, l2, q2)
+            d = 'SpinViaQubo' if sub_vt == 'SPIN' else 'SameVartype'
+            next_vt = 'BINARY'
+        child = call["child"]
+        terms.append(f"(CMixin {d} {cnat(len(T))} {vs} {sub} {sent} {res_term(T, child)} {res_term(T, res)})")
+        levels.append(cpair(d, sub))
+        dirs.append(d)
+        sub, sub_vt, res = bqm_obs_term(T, call["bqm"]), next_vt, child
+    else:
+        kind = stack[-1].kind
+        kt = "FNone" if kind is None else f"(FObject {cbool(kind[0])} {cbool(kind[1])})"
+        # innermost level first
+        terms.append(f"(CStack {kt} {cbool(was_pending)} {vs} {clist(list(reversed(levels)))} "
+                     f"{res_term(T, stack[-1].calls[-1]['child'])} {res_term(T, final)})")
+    last = stack[-1].calls[-1] if stack[-1].calls else {}
+    feats = {"kind": "mixin", "which": c["which"], "entry": entry, "dir": "+".join(dirs), "fut": fut,
+             "upper": len(names) - 1, "was_pending": was_pending,
+             "int_child_energies": bool(last.get("child", {}).get("energies_dtype_int"))}
     return {"coq": terms[0], "extra_coq": terms[1:], "py_fail": py_fail, "features": feats,
             "nontrivial": len(variables) > 0, "observed": {"final": str(final)[:2000]}}
 
@@ -997,13 +1346,13 @@ def run_poly(c):
             if not any(x == y and type(x) is type(y) for y in variables):
                 variables.append(x)
     feats = {"kind": "poly", "entry": entry, "hoc": bool(c["hoc"]), "layers": "+".join(l["t"] for l in c["layers"]),
-             "has_const": any(len(t) == 0 for t, _ in terms), "base": c.get("base", "exactpoly"),
+             "has_const": any(len(t) == 0 for t, _ in terms), "base": c.get("base", "exactpoly"), "async": c.get("async"),
              "raw_keys": any(len(set(map(repr, t))) != len(t) for t, _ in terms) or "h_keys" in c["poly"]}
     kw = {}
     bqm_rec = None
     if c["hoc"]:
         base, bkw = make_bqm_base(c, variables, vt)
-        for k in ('initial_states', '_init_vt', '_init_ls', '_init_rows', '_init_dtype'):
+        for k in ('initial_states', '_init_vt', '_init_ls', '_init_rows', '_init_dtype', '_init_decl'):
             bkw.pop(k, None)       # the reduced BQM has auxiliary variables the initial states do not cover
         bqm_rec = Rec(base)
         s = dimod.HigherOrderComposite(bqm_rec)
@@ -1014,6 +1363,8 @@ def run_poly(c):
         feats["keep"] = (not c["hoc"]["defaults"]) and c["hoc"]["keep"]
     else:
         s = dimod.ExactPolySolver()
+        if c.get("async"):
+            s = AsyncPolyBase(s, c["async"])
     recs = [PolyRec(s)]
     s = recs[0]
     for l in reversed(c["layers"]):
@@ -1071,6 +1422,10 @@ def run_poly(c):
         return {"coq": None, "features": feats, "nontrivial": False,
                 "py_fail": "a valid stack raised instead of returning a sample set: " + feats["raised"],
                 "observed": {"raised": feats["raised"]}}
+    feats["top_pending"] = not ss.done()
+    for b_ in (recs[-1].child, getattr(bqm_rec, 'child', None)):
+        if isinstance(b_, (AsyncBase, AsyncPolyBase)):
+            finish(b_.pending)
     final = snap(ss)
     py_fail = None
     if final["vartype"] != vt:
